@@ -383,7 +383,7 @@ def main(prop, tier):
     reps += pmap(explore_geo, [0])
     if tier == "quick":
         sigma = "UDJ"
-        pre = [a + b for a in sigma for b in sigma]
+        pre = [a + b + c for a in sigma for b in sigma for c in sigma]
     else:
         sigma = "UDJ"
         pre = [a + b + c for a in sigma for b in sigma for c in sigma]
